@@ -727,3 +727,568 @@ Proof.
 Qed.
 
 End Steps2.
+
+(* ------------------------------------------------------------------ the finally block *)
+
+(* entries that neither subscribe nor kick off *)
+Definition Q (l : list entry) : Prop := Forall is_dev l /\ quiet on_m l /\ quiet is_kick_ok l.
+
+Lemma Q_nil : Q [].
+Proof. repeat split; [constructor | intros e [] | intros e []]. Qed.
+
+Lemma Q_app : forall l1 l2, Q l1 -> Q l2 -> Q (l1 ++ l2).
+Proof.
+  intros l1 l2 (F1 & A1 & B1) (F2 & A2 & B2). repeat split.
+  - apply Forall_app; auto.
+  - intros e Hin; apply in_app_or in Hin as [Hin|Hin]; auto.
+  - intros e Hin; apply in_app_or in Hin as [Hin|Hin]; auto.
+Qed.
+
+Lemma Q_clear : forall d c ok, Q [EDev d (MClearSub c) ok].
+Proof. intros; repeat split; [constructor; [exact I|constructor] | intros e [<-|[]] i; reflexivity | intros e [<-|[]] i; reflexivity]. Qed.
+
+Section Fin.
+Variable fails : N -> bool.
+
+Lemma clear_lenient_spec : forall mon x mon' x',
+  clear_lenient fails mon x = (mon', x') ->
+  exists l, wl x' = wl x ++ l /\ Q l /\ forall p, In p mon -> exists e, In e l /\ off_m p e = true.
+Proof.
+  induction mon as [|[d c] t IH]; intros x mon' x' H; cbn in H.
+  - inversion H; subst. exists []; rewrite app_nil_r; repeat split; try apply Q_nil. intros p [].
+  - destruct (dcall fails x d (MClearSub c)) as [x1 ok] eqn:E.
+    destruct (clear_lenient fails t x1) as [t' x2] eqn:E2. inversion H; subst.
+    destruct (IH _ _ _ E2) as (l & E3 & Ql & Hc).
+    exists ([EDev d (MClearSub c) ok] ++ l). split; [rewrite E3, (dcall_wl _ _ _ _ _ _ E), <- app_assoc; reflexivity|].
+    split; [apply Q_app; [apply Q_clear | exact Ql]|].
+    intros p [<-|Hin].
+    + exists (EDev d (MClearSub c) ok); split; [left; reflexivity | unfold off_m; cbn; rewrite !N.eqb_refl; reflexivity].
+    + destruct (Hc p Hin) as (e & He & Ho). exists e; split; [right; exact He | exact Ho].
+Qed.
+
+Lemma clear_strict_Q : forall mon x mon' x' ok,
+  clear_strict fails mon x = (mon', x', ok) -> exists l, wl x' = wl x ++ l /\ Q l.
+Proof.
+  induction mon as [|[d c] t IH]; intros x mon' x' ok H; cbn in H.
+  - inversion H; subst. exists []; rewrite app_nil_r; split; [reflexivity | apply Q_nil].
+  - destruct (dcall fails x d (MClearSub c)) as [x1 ok1] eqn:E. destruct ok1.
+    + destruct (IH _ _ _ _ H) as (l & E3 & Ql). exists ([EDev d (MClearSub c) true] ++ l).
+      split; [rewrite E3, (dcall_wl _ _ _ _ _ _ E), <- app_assoc; reflexivity | apply Q_app; [apply Q_clear | exact Ql]].
+    + inversion H; subst. exists [EDev d (MClearSub c) false]. split; [eapply dcall_wl; eauto | apply Q_clear].
+Qed.
+
+Lemma backstop_spec : forall fs b x b' x',
+  backstop fails fs b x = (b', x') ->
+  exists l, wl x' = wl x ++ l /\ Q l /\ forall f, In f fs -> exists e, In e l /\ is_attempt f e = true.
+Proof.
+  induction fs as [|f t IH]; intros b x b' x' H; cbn in H.
+  - inversion H; subst. exists []; rewrite app_nil_r; repeat split; try apply Q_nil. intros p [].
+  - destruct (collect_b fails b f x) as [[b1 x1] ok] eqn:E.
+    destruct (collect_b_spec _ _ _ _ _ _ _ E) as (l1 & E1 & F1 & _ & _ & Qa & Qb & (e1 & He1 & Ha1) & _).
+    destruct (IH _ _ _ _ H) as (l2 & E2 & Q2 & Hc).
+    exists (l1 ++ l2). split; [rewrite E2, E1, <- app_assoc; reflexivity|].
+    split; [apply Q_app; [repeat split; assumption | exact Q2]|].
+    intros g [<-|Hin].
+    + exists e1; split; [apply in_or_app; left; exact He1 | exact Ha1].
+    + destruct (Hc g Hin) as (e & He & Ho). exists e; split; [apply in_or_app; right; exact He | exact Ho].
+Qed.
+
+Lemma fin_clear_spec : forall rs x rs1 x1,
+  fin_clear fails rs x = (rs1, x1) ->
+  exists l, wl x1 = wl x ++ l /\ Q l /\
+            (forall p, monitored rs p -> exists e, In e l /\ off_m p e = true) /\
+            (forall f, pend rs f -> exists e, In e l /\ is_attempt f e = true).
+Proof.
+  induction rs as [|[k b] t IH]; intros x rs1 x1 H; cbn in H.
+  - inversion H; subst. exists []; rewrite app_nil_r. split; [reflexivity|]. split; [apply Q_nil|].
+    split; intros p (k0 & b0 & [] & _).
+  - destruct (clear_lenient fails (b_mon b) x) as [mon' xa] eqn:Ea.
+    destruct (backstop fails (b_unc b) (set_mon b mon') xa) as [b2 xb] eqn:Eb.
+    destruct (fin_clear fails t xb) as [t' xc] eqn:Ec. inversion H; subst.
+    destruct (clear_lenient_spec _ _ _ _ Ea) as (la & Wa & Qa & Ca).
+    destruct (backstop_spec _ _ _ _ _ Eb) as (lb & Wb & Qb & Cb).
+    destruct (IH _ _ _ Ec) as (lc & Wc & Qc & Cm & Cf).
+    exists (la ++ lb ++ lc). split; [rewrite Wc, Wb, Wa, <- !app_assoc; reflexivity|].
+    split; [apply Q_app; [exact Qa | apply Q_app; [exact Qb | exact Qc]]|]. split.
+    + intros p Hp. apply (monitored_mid [] k b t p) in Hp as [Hp|Hp].
+      * destruct (Ca p Hp) as (e & He & Ho). exists e; split; [apply in_or_app; left; exact He | exact Ho].
+      * destruct (Cm p Hp) as (e & He & Ho). exists e; split; [apply in_or_app; right; apply in_or_app; right; exact He | exact Ho].
+    + intros f Hp. apply (pend_mid [] k b t f) in Hp as [Hp|Hp].
+      * destruct (Cb f Hp) as (e & He & Ho). exists e; split; [apply in_or_app; right; apply in_or_app; left; exact He | exact Ho].
+      * destruct (Cf f Hp) as (e & He & Ho). exists e; split; [apply in_or_app; right; apply in_or_app; right; exact He | exact Ho].
+Qed.
+
+Lemma fin_close_spec : forall rs x bs x', fin_close fails rs x = (bs, x') -> exists l, wl x' = wl x ++ l /\ Q l.
+Proof.
+  induction rs as [|[k b] t IH]; intros x bs x' H; cbn in H.
+  - inversion H; subst. exists []; rewrite app_nil_r; split; [reflexivity | apply Q_nil].
+  - unfold close_b in H. destruct (clear_strict fails (b_mon b) x) as [[mon' x1] ok] eqn:E.
+    destruct (fin_close fails t x1) as [t' x2] eqn:E2. inversion H; subst.
+    destruct (clear_strict_Q _ _ _ _ _ E) as (l1 & W1 & Q1). destruct (IH _ _ _ E2) as (l2 & W2 & Q2).
+    exists (l1 ++ l2). split; [rewrite W2, W1, <- app_assoc; reflexivity | apply Q_app; assumption].
+Qed.
+
+(* after the finally block: no run is open, nothing needs a clear_sub, and a flyer that still needs a collection
+   attempt is one a plan's close_run dropped *)
+Lemma finally_clean : forall s, SInv s ->
+  let s' := finally_block fails s in
+  runs s' = [] /\ g_lost s' = g_lost s /\ same_tok s s' /\
+  (exists l, led s' = led s ++ l /\ Forall is_dev l) /\
+  (forall d c, needs_clear (led s') d c = false) /\
+  (forall f, needs_collect (led s') f = true -> In f (g_lost s)).
+Proof.
+  intros s [I1 I2]; unfold finally_block.
+  destruct (fin_clear fails (runs s) (w s)) as [l1 x1] eqn:E1.
+  destruct (fin_close fails l1 x1) as [bs x2] eqn:E2. cbn.
+  destruct (fin_clear_spec _ _ _ _ E1) as (la & Wa & (Fa & Qa1 & Qa2) & Cm & Cf).
+  destruct (fin_close_spec _ _ _ _ E2) as (lb & Wb & (Fb & Qb1 & Qb2)).
+  assert (W : wl x2 = wl (w s) ++ (la ++ lb)) by (rewrite Wb, Wa, <- app_assoc; reflexivity).
+  split; [reflexivity|]. split; [reflexivity|]. split; [repeat split|].
+  split; [exists (la ++ lb); split; [exact W | apply Forall_app; auto]|].
+  unfold led; cbn. rewrite W. split.
+  - intros d c. destruct (needs_clear (wl (w s) ++ la ++ lb) d c) eqn:Hn; [|reflexivity]. exfalso.
+    rewrite needs_clear_fold, fold_left_app in Hn.
+    apply (quiet_fold on_m off_m) in Hn as [Hacc Hoff];
+      [|intros e Hin; apply in_app_or in Hin as [Hin|Hin]; auto].
+    destruct (Cm (d, c) (I1 d c Hacc)) as (e & He & Ho).
+    rewrite (Hoff e (in_or_app _ _ _ (or_introl He))) in Ho; discriminate.
+  - intros f Hn. rewrite needs_collect_fold, fold_left_app in Hn.
+    apply (quiet_fold is_kick_ok is_attempt) in Hn as [Hacc Hoff];
+      [|intros e Hin; apply in_app_or in Hin as [Hin|Hin]; auto].
+    destruct (I2 f Hacc) as [Hp|Hl]; [|exact Hl]. exfalso.
+    destruct (Cf f Hp) as (e & He & Ho).
+    rewrite (Hoff e (in_or_app _ _ _ (or_introl He))) in Ho; discriminate.
+Qed.
+
+Lemma finally_inv : forall s, SInv s -> SInv (finally_block fails s).
+Proof.
+  intros s HI. destruct (finally_clean s HI) as (Hr & Hg & _ & _ & Hc & Hf). split.
+  - intros d c H. rewrite Hc in H; discriminate.
+  - intros f H. right. rewrite Hg. apply Hf; exact H.
+Qed.
+
+(* ------------------------------------------------------------------ whole sessions *)
+
+Lemma exec_nil : forall s, exec fails s [] = s.
+Proof. reflexivity. Qed.
+
+Lemma exec_cons : forall s o t, exec fails s (o :: t) = exec fails (fst (step fails s o)) t.
+Proof.
+  intros s o t; unfold exec; cbn. destruct (step fails s o) as [s1 r]; cbn.
+  destruct (run fails s1 t) as [[s2 rs] sn]; reflexivity.
+Qed.
+
+Lemma exec_app : forall l1 s l2, exec fails s (l1 ++ l2) = exec fails (exec fails s l1) l2.
+Proof.
+  induction l1 as [|o t IH]; intros s l2; [reflexivity|].
+  cbn [app]. rewrite !exec_cons. apply IH.
+Qed.
+
+Lemma step_inv : forall s o, SInv s -> SInv (fst (step fails s o)).
+Proof.
+  intros s o HI. destruct (step fails s o) as [s' r] eqn:E; cbn.
+  destruct o; try (eapply SSpec_inv; [eapply step_sspec; [|exact E]; discriminate | exact HI]).
+  cbn in E; inversion E; subst. apply finally_inv; exact HI.
+Qed.
+
+Lemma init_inv : SInv init.
+Proof. split; intros; discriminate. Qed.
+
+Lemma exec_inv : forall l s, SInv s -> SInv (exec fails s l).
+Proof.
+  induction l as [|o t IH]; intros s HI; [exact HI|]. rewrite exec_cons. apply IH. apply step_inv; exact HI.
+Qed.
+
+End Fin.
+
+(* ------------------------------------------------------------------ tokens *)
+
+Definition is_temp_sub (e : entry) : bool :=
+  match e with ESub SPerCall _ | ESub SInPlan _ => true | _ => false end.
+
+Lemma temp_made_app : forall l l' t, temp_made (l ++ l') t = temp_made l t || temp_made l' t.
+Proof. intros; unfold temp_made; apply existsb_app. Qed.
+
+Lemma temp_made_none : forall l t, (forall e, In e l -> is_temp_sub e = false) -> temp_made l t = false.
+Proof.
+  intros l t H; unfold temp_made. destruct (existsb _ l) eqn:E; [|reflexivity].
+  apply existsb_exists in E as (e & Hin & He). specialize (H e Hin). destruct e as [| [] |]; cbn in *; congruence.
+Qed.
+
+Lemma temp_made_dev : forall l t, Forall is_dev l -> temp_made l t = false.
+Proof.
+  intros l t F; apply temp_made_none. intros e Hin. rewrite Forall_forall in F. specialize (F e Hin).
+  destruct e; cbn in *; [reflexivity | contradiction | contradiction].
+Qed.
+
+Lemma new_sub_led : forall o b s, led (new_sub o b s) = led s ++ [ESub o (ntok s)].
+Proof. reflexivity. Qed.
+Lemma do_unsub_led : forall o t s, led (do_unsub o t s) = led s ++ [EUnsub o t].
+Proof. reflexivity. Qed.
+Lemma temp_made_one_sub : forall o t0 t, temp_made [ESub o t0] t = (match o with SMain => false | _ => true end && N.eqb t0 t).
+Proof. intros o t0 t; destruct o; cbn; rewrite ?orb_false_r; reflexivity. Qed.
+
+(* a temporary token still in the dispatcher is in _temp_callback_ids; tokens are never reused *)
+Definition TInv (s : st) : Prop :=
+  (forall t, In t (temp s) -> temp_made (led s) t = true) /\
+  (forall t, In t (disp s) -> temp_made (led s) t = true -> In t (temp s)) /\
+  (forall t, temp_made (led s) t = true -> (t < ntok s)%N) /\
+  (forall t, In t (disp s) -> (t < ntok s)%N).
+
+Lemma TInv_init : TInv init.
+Proof. repeat split; cbn; intros; try contradiction; discriminate. Qed.
+
+Lemma TInv_quiet : forall s s' l, TInv s -> same_tok s s' -> led s' = led s ++ l ->
+  (forall e, In e l -> is_temp_sub e = false) -> TInv s'.
+Proof.
+  intros s s' l (A & B & C & D) (T1 & T2 & T3) E Hl.
+  assert (Hm : forall t, temp_made (led s') t = temp_made (led s) t).
+  { intros t; rewrite E, temp_made_app, (temp_made_none l t Hl), orb_false_r; reflexivity. }
+  repeat split; intros t; rewrite ?T1, ?T2, ?T3, ?Hm; auto.
+Qed.
+
+Lemma TInv_new_sub : forall s o, TInv s ->
+  TInv (new_sub o (match o with SMain => false | _ => true end) s).
+Proof.
+  intros s o (A & B & C & D).
+  assert (Hm : forall t, temp_made (led (new_sub o (match o with SMain => false | _ => true end) s)) t
+                        = temp_made (led s) t || (match o with SMain => false | _ => true end && N.eqb (ntok s) t)).
+  { intros t; rewrite new_sub_led, temp_made_app, temp_made_one_sub; reflexivity. }
+  assert (Hfresh : temp_made (led s) (ntok s) = false).
+  { destruct (temp_made (led s) (ntok s)) eqn:E; [|reflexivity]. apply C in E. lia. }
+  repeat split; intros t; rewrite ?Hm; cbn.
+  - intros Hin. destruct o; cbn in *; try (apply insN_In in Hin as [->|Hin]; [rewrite N.eqb_refl, orb_true_r; reflexivity|]);
+      rewrite (A t Hin); reflexivity.
+  - intros Hin Ht. apply in_app_or in Hin as [Hin|[<-|[]]].
+    + apply orb_true_iff in Ht as [Ht|Ht].
+      * destruct o; cbn; try apply insN_In; auto.
+      * apply andb_true_iff in Ht as [_ Ht]. apply N.eqb_eq in Ht; subst. specialize (D _ Hin); lia.
+    + rewrite Hfresh in Ht; cbn in Ht. destruct o; cbn in *; try discriminate; apply insN_In; auto.
+  - intros Ht. apply orb_true_iff in Ht as [Ht|Ht]; [specialize (C _ Ht); lia|].
+    apply andb_true_iff in Ht as [_ Ht]. apply N.eqb_eq in Ht; subst; lia.
+  - intros Hin. apply in_app_or in Hin as [Hin|[<-|[]]]; [specialize (D _ Hin)|]; lia.
+Qed.
+
+Lemma TInv_do_unsub : forall s o t, TInv s -> TInv (do_unsub o t s).
+Proof.
+  intros s o t (A & B & C & D).
+  assert (Hm : forall t', temp_made (led (do_unsub o t s)) t' = temp_made (led s) t').
+  { intros t'; rewrite do_unsub_led, temp_made_app; cbn. apply orb_false_r. }
+  repeat split; intros t'; rewrite ?Hm; cbn; auto.
+  - intros Hin; apply delN_In in Hin as [Hin _]; auto.
+  - intros Hin; apply delN_In in Hin as [Hin _]; auto.
+Qed.
+
+Lemma TInv_clear_cache : forall s, TInv s -> TInv (clear_cache s).
+Proof.
+  intros s (A & B & C & D).
+  assert (Hm : forall t, temp_made (led (clear_cache s)) t = temp_made (led s) t).
+  { intros t; rewrite clear_cache_led, temp_made_app, (temp_made_none (map _ _)), orb_false_r; [reflexivity|].
+    intros e Hin; apply in_map_iff in Hin as (t' & <- & _); reflexivity. }
+  split; [|split; [|split]]; intros t; rewrite ?Hm; cbn.
+  - contradiction.
+  - intros Hin Ht. apply filter_In in Hin as [Hin Hn]. apply negb_true_iff in Hn.
+    rewrite (proj2 (memN_In t (temp s)) (B t Hin Ht)) in Hn; discriminate.
+  - apply C.
+  - intros Hin. apply filter_In in Hin as [Hin _]; auto.
+Qed.
+
+Lemma TInv_call_subs : forall n s, TInv s -> TInv (call_subs n s).
+Proof. induction n as [|n IH]; intros s H; cbn; [exact H|]. apply IH. exact (TInv_new_sub s SPerCall H). Qed.
+
+Lemma call_subs_disp : forall n s t, In t (disp (call_subs n s)) -> In t (disp s) \/ (ntok s <= t)%N.
+Proof.
+  induction n as [|n IH]; intros s t H; cbn in H; [left; exact H|].
+  apply IH in H as [H|H]; cbn in H.
+  - apply in_app_or in H as [H|[<-|[]]]; [left; exact H | right; lia].
+  - right; lia.
+Qed.
+
+Lemma classic_op_finally : forall o : op, o = OFinally \/ o <> OFinally.
+Proof. intros o; destruct o; try (right; discriminate); left; reflexivity. Qed.
+
+Lemma call_subs_keeps : forall n s0 t,
+  In t (disp s0) -> temp_made (led s0) t = false -> (t < ntok s0)%N ->
+  In t (disp (call_subs n s0)) /\ temp_made (led (call_subs n s0)) t = false.
+Proof.
+  induction n as [|n IH]; intros s0 t H1 H2 H3; cbn; [auto|].
+  apply IH; [cbn; apply in_or_app; auto | | cbn; lia].
+  rewrite new_sub_led, temp_made_app, H2, temp_made_one_sub; cbn. apply N.eqb_neq; lia.
+Qed.
+
+Definition Inv (s : st) : Prop := SInv s /\ TInv s.
+
+Section Tok.
+Variable fails : N -> bool.
+
+Lemma step_tinv : forall s o, Inv s -> TInv (fst (step fails s o)).
+Proof.
+  intros s o [HS HT]. destruct (step fails s o) as [s' r] eqn:E; cbn.
+  assert (Hdev : DSpec s s' -> TInv s').
+  { intros (Ht & l & El & F & _). eapply TInv_quiet; eauto. intros e Hin. rewrite Forall_forall in F.
+    specialize (F e Hin). destruct e; cbn in *; [reflexivity | contradiction | contradiction]. }
+  destruct o; try (apply Hdev; eapply step_dev; [|exact E]; exact I); unfold step in E.
+  - inversion E; subst. unfold start_call. apply TInv_call_subs, TInv_clear_cache, HT.
+  - destruct valid; inversion E; subst; [exact (TInv_new_sub s SInPlan HT) | exact HT].
+  - pose proof (TInv_do_unsub s UPlan t HT) as (A & B & C & D).
+    destruct (memN t (temp (do_unsub UPlan t s))); inversion E; subst; [|repeat split; assumption].
+    repeat split; cbn in *; intros t'.
+    + intros Hin; apply delN_In in Hin as [Hin _]; auto.
+    + intros Hin Ht. pose proof Hin as Hin'. apply delN_In in Hin' as [_ Hne]. apply delN_In; split; auto.
+    + auto.
+    + auto.
+  - inversion E; subst. exact (TInv_new_sub s SMain HT).
+  - inversion E; subst. apply TInv_do_unsub, HT.
+  - inversion E; subst. destruct (finally_clean fails s HS) as (_ & _ & Ht & (l & El & F) & _).
+    eapply TInv_quiet; eauto. intros e Hin. rewrite Forall_forall in F.
+    specialize (F e Hin). destruct e; cbn in *; [reflexivity | contradiction | contradiction].
+Qed.
+
+Lemma step_Inv : forall s o, Inv s -> Inv (fst (step fails s o)).
+Proof. intros s o H; split; [apply step_inv, H | apply step_tinv, H]. Qed.
+
+Lemma exec_Inv : forall l s, Inv s -> Inv (exec fails s l).
+Proof.
+  induction l as [|o t IH]; intros s HI; [exact HI|]. rewrite exec_cons. apply IH. apply step_Inv; exact HI.
+Qed.
+
+Lemma init_Inv : Inv init.
+Proof. split; [apply init_inv | apply TInv_init]. Qed.
+
+(* ------------------------------------------------------------------ the theorems *)
+
+(* (1) flyers *)
+Theorem flyers_after_finally : forall h f,
+  let s := exec fails init (h ++ [OFinally]) in
+  needs_collect (led s) f = true -> In f (g_lost s).
+Proof.
+  intros h f s H. subst s. rewrite exec_app in *. rewrite exec_cons, exec_nil in *. cbn [step fst] in *.
+  pose proof (exec_Inv h init init_Inv) as [HS _].
+  destruct (finally_clean fails _ HS) as (_ & Hg & _ & _ & _ & Hf). rewrite Hg. apply Hf; exact H.
+Qed.
+
+Lemma on_run_lost : forall s k f, g_lost (fst (on_run s k f)) = g_lost s.
+Proof.
+  intros s k f; unfold on_run. destruct (lookup k (runs s)) as [b|]; [|reflexivity].
+  destruct (f b (w s)) as [[b1 x1] ok]; reflexivity.
+Qed.
+
+Lemma call_subs_lost : forall n s, g_lost (call_subs n s) = g_lost s.
+Proof. induction n as [|n IH]; intros s; cbn; [reflexivity | rewrite IH; reflexivity]. Qed.
+
+(* lost flyers come from close_run messages only: the flyer was uncollected in the run the message closed *)
+Theorem lost_only_by_close : forall s o f,
+  In f (g_lost (fst (step fails s o))) -> In f (g_lost s) \/
+  exists k b, o = OClose k /\ lookup k (runs s) = Some b /\ In f (b_unc b) /\ snd (step fails s o) = true.
+Proof.
+  intros s o f H. destruct o; unfold step in *.
+  - unfold start_call in H; cbn [fst] in H. rewrite call_subs_lost in H. left; exact H.
+  - destruct (lookup k (runs s)) as [b|] eqn:L; left; exact H.
+  - destruct (lookup k (runs s)) as [b|] eqn:L; [|left; exact H].
+    destruct (close_b fails b (w s)) as [[b1 x1] ok] eqn:E.
+    destruct (close_b_spec _ _ _ _ _ _ E) as (_ & Hu & _).
+    destruct ok; cbn in H; [|left; exact H].
+    apply in_app_or in H as [H|H]; [left; exact H|]. right. exists k, b. repeat split; auto.
+    rewrite <- Hu; exact H.
+  - rewrite on_run_lost in H; left; exact H.
+  - destruct (dcall fails (w s) f0 MComplete); left; exact H.
+  - rewrite on_run_lost in H; left; exact H.
+  - rewrite on_run_lost in H; left; exact H.
+  - rewrite on_run_lost in H; left; exact H.
+  - destruct valid; left; exact H.
+  - destruct (memN t (temp (do_unsub UPlan t s))); left; exact H.
+  - destruct (for_runs (suspend_b fails) (runs s) (w s)) as [[? ?] ?]; left; exact H.
+  - destruct (for_runs (restore_b fails) (runs s) (w s)) as [[? ?] ?]; left; exact H.
+  - left; exact H.
+  - left; exact H.
+  - unfold finally_block in H. destruct (fin_clear fails (runs s) (w s)) as [l1 x1].
+    destruct (fin_close fails l1 x1) as [bs x2]. left; exact H.
+Qed.
+
+(* (2) monitors *)
+Theorem monitors_after_finally : forall h,
+  let s := exec fails init (h ++ [OFinally]) in
+  runs s = [] /\ forall d c, needs_clear (led s) d c = false.
+Proof.
+  intros h s. subst s. rewrite exec_app. rewrite exec_cons, exec_nil. cbn [step fst].
+  pose proof (exec_Inv h init init_Inv) as [HS _].
+  destruct (finally_clean fails _ HS) as (Hr & _ & _ & _ & Hc & _). split; assumption.
+Qed.
+
+(* at every moment: what still needs cleaning is in the bookkeeping *)
+Theorem ledger_tracked : forall h,
+  let s := exec fails init h in
+  (forall d c, needs_clear (led s) d c = true -> monitored (runs s) (d, c)) /\
+  (forall f, needs_collect (led s) f = true -> pend (runs s) f \/ In f (g_lost s)).
+Proof. intros h s. exact (proj1 (exec_Inv h init init_Inv)). Qed.
+
+(* (3) temporary tokens *)
+Theorem temp_tokens_removed : forall h n t,
+  let s := exec fails init h in
+  temp_made (led s) t = true ->
+  ~ In t (disp (clear_cache s)) /\ ~ In t (disp (start_call n s)) /\ temp (clear_cache s) = [].
+Proof.
+  intros h n t s Ht. pose proof (exec_Inv h init init_Inv) as [_ (A & B & C & D)]. fold s in A, B, C, D.
+  assert (H1 : ~ In t (disp (clear_cache s))).
+  { cbn. intros Hin. apply filter_In in Hin as [Hin Hn]. apply negb_true_iff in Hn.
+    rewrite (proj2 (memN_In t (temp s)) (B t Hin Ht)) in Hn; discriminate. }
+  split; [exact H1|]. split; [|reflexivity].
+  unfold start_call. intros Hin. apply call_subs_disp in Hin as [Hin|Hin]; [exact (H1 Hin)|].
+  cbn in Hin. specialize (C t Ht). lia.
+Qed.
+
+(* permanent subscriptions: a token that is not temporary survives every step that is not an unsubscribe of it *)
+Theorem permanent_kept : forall h o t,
+  let s := exec fails init h in
+  In t (disp s) -> temp_made (led s) t = false -> o <> OUnsubscribe t -> o <> OMainUnsub t ->
+  In t (disp (fst (step fails s o))) /\ temp_made (led (fst (step fails s o))) t = false.
+Proof.
+  intros h o t s Hin Hnt Ho1 Ho2. pose proof (exec_Inv h init init_Inv) as HI. fold s in HI.
+  pose proof HI as [HS (A & B & C & D)].
+  destruct (step fails s o) as [s' r] eqn:E; cbn.
+  assert (Hdev : DSpec s s' -> In t (disp s') /\ temp_made (led s') t = false).
+  { intros ((T1 & T2 & T3) & l & El & F & _). rewrite T2, El, temp_made_app, Hnt, (temp_made_dev l t F). auto. }
+  assert (Hnew : forall o0 b, In t (disp (new_sub o0 b s)) /\ temp_made (led (new_sub o0 b s)) t = false).
+  { intros o0 b; split; [cbn; apply in_or_app; auto|]. rewrite new_sub_led, temp_made_app, Hnt, temp_made_one_sub; cbn.
+    destruct o0; try reflexivity; cbn; apply N.eqb_neq; specialize (D t Hin); lia. }
+  assert (Hun : forall o0 t0, t0 <> t -> In t (disp (do_unsub o0 t0 s)) /\ temp_made (led (do_unsub o0 t0 s)) t = false).
+  { intros o0 t0 Hne; split; [cbn; apply delN_In; auto|]. rewrite do_unsub_led, temp_made_app, Hnt; reflexivity. }
+  destruct o; try (apply Hdev; eapply step_dev; [|exact E]; exact I); unfold step in E.
+  - inversion E; subst. unfold start_call.
+    assert (H0 : In t (disp (clear_cache s)) /\ temp_made (led (clear_cache s)) t = false /\ (t < ntok (clear_cache s))%N).
+    { split; [|split].
+      - cbn. apply filter_In; split; [exact Hin|]. apply negb_true_iff. destruct (memN t (temp s)) eqn:Em; [|reflexivity].
+        apply memN_In in Em. rewrite (A t Em) in Hnt; discriminate.
+      - rewrite clear_cache_led, temp_made_app, Hnt, (temp_made_none (map _ _)); [reflexivity|].
+        intros e He; apply in_map_iff in He as (t' & <- & _); reflexivity.
+      - cbn. apply D; exact Hin. }
+    destruct H0 as (H1 & H2 & H3). apply call_subs_keeps; assumption.
+  - destruct valid; inversion E; subst; [apply Hnew | auto].
+  - assert (Hne : t0 <> t) by congruence. destruct (Hun UPlan t0 Hne) as [U1 U2].
+    destruct (memN t0 (temp (do_unsub UPlan t0 s))); inversion E; subst; auto.
+  - inversion E; subst; apply Hnew.
+  - inversion E; subst; apply Hun; congruence.
+  - inversion E; subst. destruct (finally_clean fails s HS) as (_ & _ & (T1 & T2 & T3) & (l & El & F) & _).
+    rewrite T2, El, temp_made_app, Hnt, (temp_made_dev l t F). auto.
+Qed.
+
+(* the ledger only grows *)
+Theorem ledger_grows : forall h o,
+  let s := exec fails init h in exists l, led (fst (step fails s o)) = led s ++ l.
+Proof.
+  intros h o s. pose proof (exec_Inv h init init_Inv) as [HS _]. fold s in HS.
+  destruct (step fails s o) as [s' r] eqn:E; cbn.
+  destruct (classic_op_finally o) as [->|Hne].
+  - cbn in E; inversion E; subst. destruct (finally_clean fails s HS) as (_ & _ & _ & (l & El & _) & _). exists l; exact El.
+  - destruct (step_sspec fails s o s' r Hne E) as (l & El & _). exists l; exact El.
+Qed.
+
+End Tok.
+
+(* ------------------------------------------------------------------ a message for run key k leaves the other runs alone *)
+
+Definition op_key (o : op) : option key :=
+  match o with
+  | OOpen k | OClose k | OKickoff k _ | OCollect k _ | OMonitor k _ | OUnmonitor k _ => Some k
+  | _ => None
+  end.
+
+Lemma lookup_update_other : forall {A} (l : list (N * A)) k k' a, k' <> k -> lookup k' (update k a l) = lookup k' l.
+Proof.
+  induction l as [|[k0 a0] t IH]; intros k k' a Hne; cbn; [reflexivity|].
+  destruct (N.eqb k k0) eqn:E; cbn.
+  - apply N.eqb_eq in E; subst. destruct (N.eqb k' k0) eqn:E2; [apply N.eqb_eq in E2; congruence | reflexivity].
+  - destruct (N.eqb k' k0); [reflexivity | apply IH; exact Hne].
+Qed.
+
+Lemma lookup_remove_key_other : forall {A} (l : list (N * A)) k k', k' <> k -> lookup k' (remove_key k l) = lookup k' l.
+Proof.
+  induction l as [|[k0 a0] t IH]; intros k k' Hne; cbn; [reflexivity|].
+  destruct (N.eqb k k0) eqn:E; cbn.
+  - apply N.eqb_eq in E; subst. destruct (N.eqb k' k0) eqn:E2; [apply N.eqb_eq in E2; congruence | reflexivity].
+  - destruct (N.eqb k' k0); [reflexivity | apply IH; exact Hne].
+Qed.
+
+Lemma lookup_app_other : forall {A} (l : list (N * A)) k k' a, k' <> k -> lookup k' (l ++ [(k, a)]) = lookup k' l.
+Proof.
+  induction l as [|[k0 a0] t IH]; intros k k' a Hne; cbn.
+  - destruct (N.eqb k' k) eqn:E; [apply N.eqb_eq in E; congruence | reflexivity].
+  - destruct (N.eqb k' k0); [reflexivity | apply IH; exact Hne].
+Qed.
+
+Lemma on_run_other : forall s k f k', k' <> k -> lookup k' (runs (fst (on_run s k f))) = lookup k' (runs s).
+Proof.
+  intros s k f k' Hne; unfold on_run. destruct (lookup k (runs s)) as [b|]; [|reflexivity].
+  destruct (f b (w s)) as [[b1 x1] ok]; cbn. apply lookup_update_other; exact Hne.
+Qed.
+
+Theorem other_runs_untouched : forall fails s o k k',
+  op_key o = Some k -> k' <> k -> lookup k' (runs (fst (step fails s o))) = lookup k' (runs s).
+Proof.
+  intros fails s o k k' Hk Hne; destruct o; cbn in Hk; inversion Hk; subst; unfold step.
+  - destruct (lookup k (runs s)); cbn; [reflexivity | apply lookup_app_other; exact Hne].
+  - destruct (lookup k (runs s)) as [b|]; [|reflexivity].
+    destruct (close_b fails b (w s)) as [[b1 x1] ok]. destruct ok; cbn;
+      [apply lookup_remove_key_other | apply lookup_update_other]; exact Hne.
+  - apply on_run_other; exact Hne.
+  - apply on_run_other; exact Hne.
+  - rewrite on_run_other; [reflexivity | exact Hne].
+  - apply on_run_other; exact Hne.
+Qed.
+
+(* ------------------------------------------------------------------ witnesses *)
+Local Open Scope N_scope.
+
+Definition no_faults : N -> bool := fun _ => false.
+
+(* C06-a: kickoff in a run that the plan closes without collecting *)
+Definition wit_a : list op := call 0%nat [OOpen 0; OKickoff 0 0; OClose 0].
+
+Lemma a_refuted :
+  let s := exec no_faults init wit_a in
+  g_lost s = [0%N] /\ needs_collect (led s) 0 = true /\ runs s = [] /\
+  led s = [EDev 0 MKickoff true].
+Proof. vm_compute. repeat split. Qed.
+
+(* a session with two calls: a flyer and a monitor left to the finally block (one clear_sub raising), a per-call and an
+   in-plan subscription removed when the next call starts, a permanent one kept *)
+Definition ex_faults : N -> bool := fails_at [5%N].
+Definition ex_session : list op :=
+  OMainSub :: call 1%nat [OOpen 0; OKickoff 0 0; OKickoff 0 1; OMonitor 0 10; OCollect 0 0; OSubscribe true; OPause; OWake]
+  ++ call 1%nat [OOpen 1; OMonitor 1 10].
+
+Lemma ex_session_runs :
+  let s := exec ex_faults init ex_session in
+  g_lost s = [] /\ runs s = [] /\ disp s = [0; 3]%N /\ temp s = [3%N] /\
+  led s = [ESub SMain 0; ESub SPerCall 1; EDev 0 MKickoff true; EDev 1 MKickoff true; EDev 10 MDescribe true;
+           EDev 10 (MSubscribe 0) true; EDev 0 MDescribeCollect true; EDev 0 MCollect false; ESub SInPlan 2;
+           EDev 10 (MClearSub 0) true; EDev 10 (MSubscribe 0) true; EDev 10 (MClearSub 0) true;
+           EDev 1 MDescribeCollect true; EDev 1 MCollect true;
+           EUnsub UClear 1; EUnsub UClear 2; ESub SPerCall 3; EDev 10 MDescribe true; EDev 10 (MSubscribe 1) true;
+           EDev 10 (MClearSub 1) true]%N.
+Proof. vm_compute. repeat split. Qed.
+
+Lemma ex_midway :
+  let s := exec ex_faults init (firstn 8%nat ex_session) in
+  needs_collect (led s) 1 = true /\ needs_clear (led s) 10 0 = true /\ temp_made (led s) 1 = true /\
+  temp_made (led s) 2 = true /\ temp_made (led s) 0 = false /\ disp s = [0; 1; 2]%N.
+Proof. vm_compute. repeat split. Qed.
+
+(* outside class C06-a (no plan close_run dropped an uncollected flyer) every kicked-off flyer got a collection attempt *)
+Theorem flyers_clean_outside_a : forall fails h,
+  let s := exec fails init (h ++ [OFinally]) in
+  g_lost s = [] -> forall f, needs_collect (led s) f = false.
+Proof.
+  intros fails h s Hl f. destruct (needs_collect (led s) f) eqn:E; [|reflexivity].
+  apply (flyers_after_finally fails h f) in E. fold s in E. rewrite Hl in E. contradiction.
+Qed.
+
+Theorem a_refuted_thm :
+  exists h, let s := exec no_faults init (h ++ [OFinally]) in
+            g_lost s <> [] /\ ~ (forall f, needs_collect (led s) f = false).
+Proof.
+  exists [OStart 0; OOpen 0; OKickoff 0 0; OClose 0]. cbv zeta.
+  change ([OStart 0; OOpen 0; OKickoff 0 0; OClose 0] ++ [OFinally]) with wit_a.
+  destruct a_refuted as (Hl & Hn & _). split; [rewrite Hl; discriminate|].
+  intros H. rewrite (H 0) in Hn. discriminate.
+Qed.
